@@ -8,7 +8,7 @@
 From Coq Require Import Reals ZArith List Bool Lra Lia Permutation.
 From Coquelicot Require Import Coquelicot.
 From Sky Require Import Num NumR G_llh M_Llh M_LlhPipe S_Llh S_LlhPipe
-  P_Llh P_LlhValue P_LlhC1 P_LlhCompose.
+  P_LlhK P_LlhValue P_LlhC1 P_LlhCompose.
 Import ListNotations.
 Open Scope R_scope.
 
